@@ -11,6 +11,7 @@ import (
 	"math"
 	"reflect"
 	"sort"
+	"strings"
 )
 
 type vFPath struct {
@@ -84,7 +85,11 @@ var vNegZeroDone, vNilBytesDone bool
 func vExtremes(f *vField) []uint64 {
 	switch f.skind {
 	case "SU64", "SFix64", "SI64", "SSFix64":
-		return []uint64{1, 1<<53 + 1, 1234567890123456789, 1<<63 - 1, 1 << 63, 1<<64 - 1, uint64(1<<64 - (1<<53 + 1))}
+		out := []uint64{1, 1<<53 + 1, 1234567890123456789, 1<<63 - 1, 1 << 63, 1<<64 - 1, uint64(1<<64 - (1<<53 + 1))}
+		for k := uint(1); k <= 9; k++ { // both sides of every varint size boundary (sovX)
+			out = append(out, 1<<(7*k)-1, 1<<(7*k))
+		}
+		return out
 	case "SU32", "SFix32", "SI32", "SZig32":
 		return []uint64{1, 1<<31 - 1, 1 << 31, 1<<32 - 1}
 	case "SBool":
@@ -154,6 +159,12 @@ func (r *vRun) directedCases() {
 				}
 			case vtStr:
 				setters = append(setters, func(x reflect.Value) { x.SetString("é\"\\\n <世>") })
+				if n%7 == 0 { // lengths on both sides of the 1-/2-/3-byte length prefix
+					for _, l := range []int{127, 128, 16383, 16384} {
+						ll := l
+						setters = append(setters, func(x reflect.Value) { x.SetString(strings.Repeat("a", ll)) })
+					}
+				}
 			case vtBytes:
 				setters = append(setters, func(x reflect.Value) { x.SetBytes([]byte{0, 255, 128}) }, func(x reflect.Value) { x.SetBytes([]byte{}) })
 				if f.card == vcOneof && !vNilBytesDone {
